@@ -7,11 +7,6 @@ the induction on the fuel, and `applyT`.
 -/
 namespace Tfv.C03P
 
-def UnifyS (L : Lang) (n : Nat) : Prop :=
-  ∀ σ a b σ', OkStore L σ → NoConstraints σ → okTerm L σ a = true → okTerm L σ b = true →
-    unify L n σ a b true false false = .ok σ' →
-    Step L σ σ' ∧ ∀ ρ, Sat L ρ σ' → Sub L (den ρ a) (den ρ b)
-
 def UnifyListS (L : Lang) (n : Nat) : Prop :=
   ∀ σ vs xs ys σ', OkStore L σ → NoConstraints σ → okTermL L σ xs = true → okTermL L σ ys = true →
     xs.length = vs.length → ys.length = vs.length →
@@ -335,7 +330,7 @@ theorem all_sound {L : Lang} (wf : WF L) : ∀ n,
     · intro σ vs ps pl σ' _ _ _ h; unfold fixList at h; cases h
   | n+1 => by
     obtain ⟨h1, h2, h3, h4, h5, h6, h7⟩ := all_sound wf n
-    exact ⟨unify_step wf h2 h3 h4 h5, unifyList_step h1 h2, bind_step wf h4 h5,
+    exact ⟨unify_step wf h2 h3 h4 h5, unifyList_step h1 h2, bind_step wf h1,
       above_step wf h3, below_step wf h3, fix_step h3 h7, fixList_step h6 h7⟩
 
 end Tfv.C03P
